@@ -145,17 +145,20 @@ def enc_arg(a):
     return ["lit", enc_val(a)]
 
 
-def enc_cond(c, depth=0):
+def enc_cond(c, depth=0, opaque_paths=False):
+    """`opaque_paths`: conditions stored inside path parts are never given source data, so a data-path
+    argument there is just an opaque object (as in the model)"""
     if depth > 60:
         raise Unencodable("condition too deep (cycle?)")
     name = type(c).__name__
     if name in BIN_OPS:
         ch = c.children
-        return ["bin", BIN_OPS[name], enc_cond(ch[0], depth + 1), enc_cond(ch[1], depth + 1)]
+        return ["bin", BIN_OPS[name], enc_cond(ch[0], depth + 1, opaque_paths), enc_cond(ch[1], depth + 1, opaque_paths)]
     if name in CLASS_NAMES:
         pc = c.callable
-        return ["leaf", name, pc.name, [enc_arg(a) for a in pc.args],
-                [[k, enc_arg(v)] for k, v in pc.kwargs.items()]]
+        ea = (lambda a: ["lit", enc_val(a)]) if opaque_paths else enc_arg
+        return ["leaf", name, pc.name, [ea(a) for a in pc.args],
+                [[k, ea(v)] for k, v in pc.kwargs.items()]]
     raise Unencodable(f"condition class {name}")
 
 
@@ -164,9 +167,9 @@ NULL = ["leaf", "NullCondition", "null", [], []]
 
 def enc_part(p):
     kind = {"MapValue": "map", "ListValue": "list", "MapOrListValue": "molv"}[type(p).__name__]
-    lc = enc_cond(p.list_condition) if kind == "molv" else NULL
-    mc = enc_cond(p.map_condition) if kind == "molv" else NULL
-    return ["part", kind, enc_cond(p.condition), lc, mc, None if p.label is None else enc_val(p.label)]
+    lc = enc_cond(p.list_condition, 0, True) if kind == "molv" else NULL
+    mc = enc_cond(p.map_condition, 0, True) if kind == "molv" else NULL
+    return ["part", kind, enc_cond(p.condition, 0, True), lc, mc, None if p.label is None else enc_val(p.label)]
 
 
 def enc_path(p):
